@@ -927,6 +927,25 @@ pub fn run_shard(ctx: &mut Ctx) {
         }
         ctx.end_phase();
     }
+    if ctx.prop == "C01" {
+        // read-back of every appended entry along walks in which update_state is an ordinary step (an id that is
+        // still resident is appended again with another payload)
+        ctx.begin_phase(0.15);
+        let n = if ctx.tier == Tier::Quick { 120 } else { 10_000 };
+        for k in 0..n {
+            if !ctx.time_left() {
+                break;
+            }
+            let (ws, _, _, _) = if k % 2 == 0 { crate::props::c16walk::walk_legal(r.next()) } else { crate::props::c16walk::walk3(r.next()) };
+            ctx.out.count("walk:walks", 1);
+            ctx.out.count("walk:appended_entries_read_back", ws.read_backs);
+            ctx.out.count("walk:appends_of_an_id_appended_before", ws.reappended_resident_ids);
+            if let Some(v) = ws.read_back_wrong {
+                ctx.out.viol(v);
+            }
+        }
+        ctx.end_phase();
+    }
     if ctx.prop == "C06" {
         // refused calls along walks in which update_state is an ordinary step
         ctx.begin_phase(0.2);
